@@ -338,6 +338,18 @@ impl Assembler for IntervalAssembler {
             ; vpshufd xmm1, Rx(reg(rhs_reg)), 0b00010001_i8
             ; vmulps xmm2, xmm2, xmm1 // xmm2 contains all 4 results
 
+            // vminps / vmaxps return their second operand when either is
+            // NaN, so a NaN product (0 * inf, or a NaN input) could silently
+            // drop a bound below; return the NaN interval instead.
+            ; vcmpunordps xmm1, xmm2, xmm2
+            ; vptest xmm1, xmm1
+            ; jz >O
+            ; vpcmpeqw Rx(reg(out_reg)), Rx(reg(out_reg)), Rx(reg(out_reg))
+            ; vpslld Rx(reg(out_reg)), Rx(reg(out_reg)), 23
+            ; vpsrld Rx(reg(out_reg)), Rx(reg(out_reg)), 1
+            ; jmp >E
+
+            ; O:
             // Extract the horizontal minimum into out
             ; vpshufd xmm1, xmm2, 0b00001110 // xmm1 = [_, _, 3, 2]
             ; vminps xmm1, xmm1, xmm2 // xmm1 = [_, _, min(3, 1), min(2, 0)]
@@ -352,7 +364,10 @@ impl Assembler for IntervalAssembler {
 
             // Splice the two together
             ; vunpcklps Rx(reg(out_reg)), Rx(reg(out_reg)), xmm2
+
+            ; E:
         );
+        self.0.ops.commit_local().unwrap();
     }
     fn build_div(&mut self, out_reg: u8, lhs_reg: u8, rhs_reg: u8) {
         dynasm!(self.0.ops
